@@ -26,6 +26,8 @@ BOUND = {
     "quick": "L(4,3) x every question position x 11 types x 22 tokens; L(4,3) x ordered trigger pairs x 3 target types x calc/no-calc",
     "thorough": "L(5,3) x every question position x 11 types x 22 tokens; L(5,3) x ordered trigger pairs x 3 target types x calc/no-calc x 2 trigger types",
 }
+# as-built additions to the bound (kept next to BOUND so that the evidence reports them)
+BOUND = {k: v + "; plus: " + "4 function/reference-then-minus tokens; one name deviation: the question's name extends another node's name (<name>_count, <name>x)" for k, v in BOUND.items()}
 NAMES = ["a", "b", "c", "d", "e", "f"]
 TYPES = ["text", "integer", "decimal", "date", "time", "dateTime", "select_one c", "geopoint", "image", "calculate", "note"]
 # token -> classification: 's' static, 'd' dynamic, '?' ambiguous
